@@ -33,7 +33,7 @@ theorem dx_ref (ctx : Ctx) (b : Bool) (c : Nat) (a : CellRef) (hwf : (Tok.ref c 
   obtain ⟨hc, hr, hcol⟩ := hwf
   have hcr := colRel_lt a hcol
   rcases cls_cases c hc with rfl | rfl | rfl <;>
-  simp [decodeTokXls, encXls, opc, decodeXls, actOf, need_16, need_zero, u16_le16, u16_skip16, drop_16, hr, hcr,
+  simp [decodeTokXls, encXls, opc, decodeXls, actOf, need_16, need_unfold, need_zero, u16_le16, u16_skip16, drop_16, hr, hcr,
     cellRef_colRel, hcol]
 
 theorem dx_area (ctx : Ctx) (b : Bool) (c : Nat) (a : CellRef) (a2 : CellRef) (hwf : (Tok.area c a a2).wf true) (rest : Bytes) :
@@ -43,7 +43,7 @@ theorem dx_area (ctx : Ctx) (b : Bool) (c : Nat) (a : CellRef) (a2 : CellRef) (h
   have hcr := colRel_lt a hcol
   have hcr2 := colRel_lt a2 hcol2
   rcases cls_cases c hc with rfl | rfl | rfl <;>
-  simp [decodeTokXls, encXls, opc, decodeXls, actOf, need_16, need_zero, u16_le16, u16_skip16, drop_16, hr, hcr,
+  simp [decodeTokXls, encXls, opc, decodeXls, actOf, need_16, need_unfold, need_zero, u16_le16, u16_skip16, drop_16, hr, hcr,
     cellRef_colRel, hcol, hr2, hcr2, hcol2]
 
 theorem dx_ref3d (ctx : Ctx) (b : Bool) (c : Nat) (i : Nat) (a : CellRef) (hwf : (Tok.ref3d c i a).wf true) (rest : Bytes) :
@@ -52,7 +52,7 @@ theorem dx_ref3d (ctx : Ctx) (b : Bool) (c : Nat) (i : Nat) (a : CellRef) (hwf :
   obtain ⟨hc, hi, hr, hcol⟩ := hwf
   have hcr := colRel_lt a hcol
   rcases cls_cases c hc with rfl | rfl | rfl <;>
-  simp [decodeTokXls, encXls, opc, decodeXls, actOf, envOfXls, need_16, need_zero, u16_le16, u16_skip16, drop_16, hr,
+  simp [decodeTokXls, encXls, opc, decodeXls, actOf, envOfXls, need_16, need_unfold, need_zero, u16_le16, u16_skip16, drop_16, hr,
     hcr, cellRef_colRel, hcol, hi]
 
 theorem dx_area3d (ctx : Ctx) (b : Bool) (c : Nat) (i : Nat) (a : CellRef) (a2 : CellRef) (hwf : (Tok.area3d c i a a2).wf true) (rest : Bytes) :
@@ -62,59 +62,59 @@ theorem dx_area3d (ctx : Ctx) (b : Bool) (c : Nat) (i : Nat) (a : CellRef) (a2 :
   have hcr := colRel_lt a hcol
   have hcr2 := colRel_lt a2 hcol2
   rcases cls_cases c hc with rfl | rfl | rfl <;>
-  simp [decodeTokXls, encXls, opc, decodeXls, actOf, envOfXls, need_16, need_zero, u16_le16, u16_skip16, drop_16, hr,
+  simp [decodeTokXls, encXls, opc, decodeXls, actOf, envOfXls, need_16, need_unfold, need_zero, u16_le16, u16_skip16, drop_16, hr,
     hcr, cellRef_colRel, hcol, hr2, hcr2, hcol2, hi]
 
 theorem dx_refErr (ctx : Ctx) (b : Bool) (c : Nat) (hwf : (Tok.refErr c).wf true) (rest : Bytes) :
     decodeTokXls ctx b (encXls (Tok.refErr c) ++ rest) = .ok (actOf (envOfXls ctx) true (Tok.refErr c), rest) := by
   rcases cls_cases c hwf with rfl | rfl | rfl <;>
-  simp [decodeTokXls, encXls, opc, decodeXls, actOf, zeros, List.replicate, need_succ, need_zero]
+  simp [decodeTokXls, encXls, opc, decodeXls, actOf, zeros, List.replicate, need_succ, need_unfold, need_zero]
 
 theorem dx_areaErr (ctx : Ctx) (b : Bool) (c : Nat) (hwf : (Tok.areaErr c).wf true) (rest : Bytes) :
     decodeTokXls ctx b (encXls (Tok.areaErr c) ++ rest) = .ok (actOf (envOfXls ctx) true (Tok.areaErr c), rest) := by
   rcases cls_cases c hwf with rfl | rfl | rfl <;>
-  simp [decodeTokXls, encXls, opc, decodeXls, actOf, zeros, List.replicate, need_succ, need_zero]
+  simp [decodeTokXls, encXls, opc, decodeXls, actOf, zeros, List.replicate, need_succ, need_unfold, need_zero]
 
 theorem dx_refErr3d (ctx : Ctx) (b : Bool) (c : Nat) (i : Nat) (hwf : (Tok.refErr3d c i).wf true) (rest : Bytes) :
     decodeTokXls ctx b (encXls (Tok.refErr3d c i) ++ rest) = .ok (actOf (envOfXls ctx) true (Tok.refErr3d c i), rest) := by
   obtain ⟨hc, hi⟩ := hwf
   rcases cls_cases c hc with rfl | rfl | rfl <;>
-  simp [decodeTokXls, encXls, opc, decodeXls, actOf, envOfXls, zeros, List.replicate, need_16, need_succ, need_zero,
+  simp [decodeTokXls, encXls, opc, decodeXls, actOf, envOfXls, zeros, List.replicate, need_16, need_succ, need_unfold, need_zero,
     u16_le16, drop_16, hi]
 
 theorem dx_areaErr3d (ctx : Ctx) (b : Bool) (c : Nat) (i : Nat) (hwf : (Tok.areaErr3d c i).wf true) (rest : Bytes) :
     decodeTokXls ctx b (encXls (Tok.areaErr3d c i) ++ rest) = .ok (actOf (envOfXls ctx) true (Tok.areaErr3d c i), rest) := by
   obtain ⟨hc, hi⟩ := hwf
   rcases cls_cases c hc with rfl | rfl | rfl <;>
-  simp [decodeTokXls, encXls, opc, decodeXls, actOf, envOfXls, zeros, List.replicate, need_16, need_succ, need_zero,
+  simp [decodeTokXls, encXls, opc, decodeXls, actOf, envOfXls, zeros, List.replicate, need_16, need_succ, need_unfold, need_zero,
     u16_le16, drop_16, hi]
 
 theorem dx_name (ctx : Ctx) (b : Bool) (c : Nat) (i : Nat) (hwf : (Tok.name c i).wf true) (rest : Bytes) :
     decodeTokXls ctx b (encXls (Tok.name c i) ++ rest) = .ok (actOf (envOfXls ctx) true (Tok.name c i), rest) := by
   obtain ⟨hc, hi⟩ := hwf
   rcases cls_cases c hc with rfl | rfl | rfl <;>
-  simp [decodeTokXls, encXls, opc, decodeXls, actOf, envOfXls, need_32, need_zero, u32_le32, drop_32, hi]
+  simp [decodeTokXls, encXls, opc, decodeXls, actOf, envOfXls, need_32, need_unfold, need_zero, u32_le32, drop_32, hi]
 
 theorem dx_int (ctx : Ctx) (b : Bool) (n : Nat) (hwf : (Tok.int n).wf true) (rest : Bytes) :
     decodeTokXls ctx b (encXls (Tok.int n) ++ rest) = .ok (actOf (envOfXls ctx) true (Tok.int n), rest) := by
   simp [Tok.wf] at hwf
-  simp [decodeTokXls, encXls, decodeXls, actOf, need_16, need_zero, u16_le16, drop_16, hwf]
+  simp [decodeTokXls, encXls, decodeXls, actOf, need_16, need_unfold, need_zero, u16_le16, drop_16, hwf]
 
 theorem dx_num (ctx : Ctx) (b : Bool) (bits : Nat) (hwf : (Tok.num bits).wf true) (rest : Bytes) :
     decodeTokXls ctx b (encXls (Tok.num bits) ++ rest) = .ok (actOf (envOfXls ctx) true (Tok.num bits), rest) := by
   simp [Tok.wf] at hwf
-  simp [decodeTokXls, encXls, decodeXls, actOf, envOfXls, need_64, need_zero, u64_le64, drop_64, hwf]
+  simp [decodeTokXls, encXls, decodeXls, actOf, envOfXls, need_64, need_unfold, need_zero, u64_le64, drop_64, hwf]
 
 theorem dx_bool (ctx : Ctx) (b : Bool) (v : Bool) (hwf : (Tok.bool v).wf true) (rest : Bytes) :
     decodeTokXls ctx b (encXls (Tok.bool v) ++ rest) = .ok (actOf (envOfXls ctx) true (Tok.bool v), rest) := by
-  cases v <;> simp [decodeTokXls, encXls, decodeXls, actOf, need_succ, need_zero, byteAt_zero]
+  cases v <;> simp [decodeTokXls, encXls, decodeXls, actOf, need_succ, need_unfold, need_zero, byteAt_zero]
 
 theorem dx_err (ctx : Ctx) (b : Bool) (code : Nat) (hwf : (Tok.err code).wf true) (rest : Bytes) :
     decodeTokXls ctx b (encXls (Tok.err code) ++ rest) = .ok (actOf (envOfXls ctx) true (Tok.err code), rest) := by
   have h8 : code < 256 := by
     simp [Tok.wf] at hwf
     rcases hwf with rfl | rfl | rfl | rfl | rfl | rfl | rfl | rfl <;> decide
-  simp [decodeTokXls, encXls, decodeXls, actOf, need_succ, need_zero, byteAt_zero, toNat_ofNat8 _ h8,
+  simp [decodeTokXls, encXls, decodeXls, actOf, need_succ, need_unfold, need_zero, byteAt_zero, toNat_ofNat8 _ h8,
     errText_errName code hwf]
 
 theorem dx_missArg (ctx : Ctx) (b : Bool)  (_hwf : (Tok.missArg ).wf true) (rest : Bytes) :
@@ -147,14 +147,14 @@ theorem dx_paren (ctx : Ctx) (b : Bool)  (_hwf : (Tok.paren ).wf true) (rest : B
 
 theorem dx_attrSum (ctx : Ctx) (b : Bool)  (_hwf : (Tok.attrSum ).wf true) (rest : Bytes) :
     decodeTokXls ctx b (encXls (Tok.attrSum ) ++ rest) = .ok (actOf (envOfXls ctx) true (Tok.attrSum ), rest) := by
-  simp [decodeTokXls, encXls, decodeXls, actOf, need_succ, need_zero, byteAt_zero]
+  simp [decodeTokXls, encXls, decodeXls, actOf, need_succ, need_unfold, need_zero, byteAt_zero]
 
 theorem dx_attrSkip (ctx : Ctx) (b : Bool) (e : Nat) (w : Nat) (hwf : (Tok.attrSkip e w).wf true) (rest : Bytes) :
     decodeTokXls ctx b (encXls (Tok.attrSkip e w) ++ rest) = .ok (actOf (envOfXls ctx) true (Tok.attrSkip e w), rest) := by
   obtain ⟨he, hw⟩ := hwf
   simp at he
   rcases he with rfl | rfl | rfl | rfl | rfl <;>
-  simp [decodeTokXls, encXls, decodeXls, actOf, need_succ, need_16, need_zero, byteAt_zero, drop_16]
+  simp [decodeTokXls, encXls, decodeXls, actOf, need_succ, need_16, need_unfold, need_zero, byteAt_zero, drop_16]
 
 theorem dx_func (ctx : Ctx) (b : Bool) (c : Nat) (iftab : Nat) (hwf : (Tok.func c iftab).wf true) (rest : Bytes) :
     decodeTokXls ctx b (encXls (Tok.func c iftab) ++ rest) = .ok (actOf (envOfXls ctx) true (Tok.func c iftab), rest) := by
@@ -166,7 +166,7 @@ theorem dx_func (ctx : Ctx) (b : Bool) (c : Nat) (iftab : Nat) (hwf : (Tok.func 
   have hnl : ¬ iftab ≥ Gen.ftabLen := by omega
   rcases cls_cases c hc with rfl | rfl | rfl <;>
   · simp only [decodeTokXls, encXls, opc, List.cons_append]
-    simp only [decodeXls, decodeFuncFixed, actOf, need_16, need_zero, u16_le16 _ _ hi16, drop_16, hnl, hn,
+    simp only [decodeXls, decodeFuncFixed, actOf, need_16, need_unfold, need_zero, u16_le16 _ _ hi16, drop_16, hnl, hn,
       Res.bind_ok, if_false, Option.getD_some, List.drop_zero]
     first | rfl | simp
 
@@ -178,7 +178,7 @@ theorem dx_funcVar (ctx : Ctx) (b : Bool) (c : Nat) (argc : Nat) (iftab : Nat) (
     omega
   rcases cls_cases c hc with rfl | rfl | rfl <;>
   · simp only [decodeTokXls, encXls, opc, List.cons_append]
-    simp only [decodeXls, decodeFuncVar, actOf, need_succ, need_16, need_zero, u16_succ, byteAt_zero,
+    simp only [decodeXls, decodeFuncVar, actOf, need_succ, need_16, need_unfold, need_zero, u16_succ, byteAt_zero,
       u16_le16 _ _ hi16, toNat_ofNat8 _ ha, Res.bind_ok, List.drop_succ_cons, drop_16, List.drop_zero]
     first | rfl | simp
 
@@ -191,10 +191,10 @@ theorem dx_str (ctx : Ctx) (b : Bool) (w : Bool) (s : List Char) (hwf : (Tok.str
     simp only [decodeTokXls, encXls, if_true, List.cons_append]
     have h17 : (0x17 : UInt8).toNat = 0x17 := rfl
     rw [h17]
-    simp only [decodeXls, need_succ, need_zero, byteAt_zero, byteAt_succ, toNat_ofNat8 _ hlen, Res.bind_ok]
+    simp only [decodeXls, byteAt_zero, byteAt_succ, toNat_ofNat8 _ hlen]
     have h1 : (1 : UInt8).toNat % 2 = 1 := rfl
     simp only [h1, if_true]
-    rw [need2_add, drop2_add, ← unitsLe_length, need_self, List.drop_left' rfl, units_two,
+    rw [need_ok true _ 2 (by simp), ← unitsLe_length, need2_add, drop2_add, List.drop_left' rfl, units_two,
       units_unitsLe _ (utf16Units_lt s), decodeUtf16_utf16Units]
     simp [actOf]
   | false =>
@@ -207,11 +207,11 @@ theorem dx_str (ctx : Ctx) (b : Bool) (w : Bool) (s : List Char) (hwf : (Tok.str
     simp only [decodeTokXls, encXls, Bool.false_eq_true, if_false, List.cons_append]
     have h17 : (0x17 : UInt8).toNat = 0x17 := rfl
     rw [h17]
-    simp only [decodeXls, need_succ, need_zero, byteAt_zero, byteAt_succ, toNat_ofNat8 _ hlen, Res.bind_ok]
+    simp only [decodeXls, byteAt_zero, byteAt_succ, toNat_ofNat8 _ hlen]
     have h0 : ¬ (0 : UInt8).toNat % 2 = 1 := by decide
     simp only [h0, if_false]
     have hml : ((utf16Units s).map UInt8.ofNat).length = (utf16Units s).length := by simp
-    rw [need2_add, drop2_add, ← hml, need_self, List.drop_left' rfl, narrow_two, hml,
+    rw [need_ok true _ 2 (by simp), ← hml, need2_add, drop2_add, List.drop_left' rfl, narrow_two, hml,
       narrow_map _ hlt, decodeUtf16_utf16Units]
     simp [actOf]
 
